@@ -6,6 +6,7 @@
 (*   I.nodes : Seq(token)           I.bit : token -> 2^position            *)
 (*   I.tab   : token -> Seq(Int)    local score of (v, P) at index         *)
 (*                                  1 + SUM_{p \in P} bit[p]               *)
+(*   I.pe    : Int                  log structure prior per edge           *)
 (* i.e. the local score is an UNINTERPRETED integer table; a network score *)
 (* is the sum of the local scores of its families (decomposability).       *)
 (*                                                                         *)
@@ -15,8 +16,8 @@
 (* is white-listed and not black-listed and whose grown parent set         *)
 (* respects the in-degree bound - and it is not barred by the tabu list.   *)
 (* FastLegal is the path formulation an implementation would use (for a    *)
-(* flip: no OTHER directed path x ~> y); Gen_C11H checks that the two      *)
-(* coincide on every reachable state.                                      *)
+(* flip: no OTHER directed path x ~> y); Gen_C11H (lemma mode) checks that *)
+(* the two coincide on EVERY DAG over the nodes.                           *)
 (*                                                                         *)
 (* Trees: spanning trees of the complete graph on N by enumeration, the    *)
 (* maximum-weight ones, and their orientation away from a root.            *)
@@ -30,7 +31,8 @@ Abs(a) == IF a < 0 THEN -a ELSE a
 \* ---- table-backed decomposable score -------------------------------------
 Mask(I, P) == MapThenSumSet(LAMBDA p : I.bit[p], P)
 LS(I, v, P) == I.tab[v][1 + Mask(I, P)]
-Score(I, N, E) == MapThenSumSet(LAMBDA v : LS(I, v, Pa(E, v)), N)
+\* I.pe = structure prior per edge (log prior of a graph = pe * |E| + constant; 0 for all scores but BDs)
+Score(I, N, E) == MapThenSumSet(LAMBDA v : LS(I, v, Pa(E, v)), N) + I.pe * Cardinality(E)
 
 \* ---- single-edge operations ----------------------------------------------
 Op(t, x, y) == [t |-> t, x |-> x, y |-> y]
@@ -40,8 +42,9 @@ Apply(E, o) == CASE o.t = "+"    -> E \cup {<<o.x, o.y>>}
                  [] o.t = "-"    -> E \ {<<o.x, o.y>>}
                  [] o.t = "flip" -> (E \ {<<o.x, o.y>>}) \cup {<<o.y, o.x>>}
 \* the graphs one edge addition / deletion / reversal away from E
-OneEdgeChange(E, F) == \/ Cardinality(SymDiff(E, F)) = 1
-                       \/ \E e \in E \ F : SymDiff(E, F) = {e, <<e[2], e[1]>>}
+OneEdgeChange(E, F) == \E d \in {SymDiff(E, F)} :
+                          \/ Cardinality(d) = 1
+                          \/ Cardinality(d) = 2 /\ \E e \in d : d = {e, <<e[2], e[1]>>}
 
 \* constraints C = [fixed, black, white : sets of edges, maxin : Nat]
 InDegOK(C, N, E) == \A n \in N : Cardinality(Pa(E, n)) <= C.maxin
@@ -52,7 +55,8 @@ Admissible(C, N, E, F) ==
     /\ (F \ E) \cap C.black = {}
     /\ (F \ E) \subseteq C.white
     /\ \A e \in F \ E : Cardinality(Pa(F, e[2])) <= C.maxin
-StructLegal(C, N, E, o) == Pre(E, o) /\ Admissible(C, N, E, Apply(E, o))
+\* (\E over a singleton = eager evaluation of the successor graph)
+StructLegal(C, N, E, o) == Pre(E, o) /\ \E F \in {Apply(E, o)} : Admissible(C, N, E, F)
 
 \* first reason why o is not structurally legal (for diagnostics / signatures)
 WhyIllegal(C, N, E, o) ==
@@ -87,19 +91,19 @@ Undo(o) == CASE o.t = "+" -> Op("-", o.x, o.y) [] o.t = "-" -> Op("+", o.x, o.y)
 Push(tabu, e, L) == IF L = 0 THEN <<>>
                     ELSE LET s == Append(tabu, e) IN IF Len(s) > L THEN Tail(s) ELSE s
 
-Legal(C, N, E, tabu) == {o \in AllOps(N) : StructLegal(C, N, E, o) /\ TabuOK(tabu, o)}
+Legal(C, N, ops, E, tabu) == {o \in ops : StructLegal(C, N, E, o) /\ TabuOK(tabu, o)}
 
 \* ---- score change of an operation, from the families it touches ---------
 Delta(I, E, o) ==
     LET x == o.x  y == o.y IN
-    CASE o.t = "+" -> LS(I, y, Pa(E, y) \cup {x}) - LS(I, y, Pa(E, y))
-      [] o.t = "-" -> LS(I, y, Pa(E, y) \ {x}) - LS(I, y, Pa(E, y))
+    CASE o.t = "+" -> LS(I, y, Pa(E, y) \cup {x}) - LS(I, y, Pa(E, y)) + I.pe
+      [] o.t = "-" -> LS(I, y, Pa(E, y) \ {x}) - LS(I, y, Pa(E, y)) - I.pe
       [] o.t = "flip" -> LS(I, x, Pa(E, x) \cup {y}) + LS(I, y, Pa(E, y) \ {x})
                          - LS(I, x, Pa(E, x)) - LS(I, y, Pa(E, y))
 
 \* ---- the contract of a returned graph F for a search started at E0 ------
 \* (tol = 0 for integer tables; > 0 when the table holds scaled floats)
-ContractFailures(I, C, N, E0, F, eps, tol, selfStopped, tabuLen) ==
+ContractFailures(I, C, N, ops, E0, F, eps, tol, selfStopped, tabuLen) ==
     {c \in {"cyclic", "fixed_missing", "black_edge", "non_white_addition", "indegree", "score_decreased", "not_local_optimum"} :
         CASE c = "cyclic" -> ~Acyclic(N, F)
           [] c = "fixed_missing" -> ~(C.fixed \subseteq F)
@@ -109,7 +113,7 @@ ContractFailures(I, C, N, E0, F, eps, tol, selfStopped, tabuLen) ==
           [] c = "score_decreased" -> Score(I, N, F) < Score(I, N, E0) - tol
           [] c = "not_local_optimum" ->
                 /\ selfStopped /\ tabuLen = 0 /\ Acyclic(N, F)
-                /\ \E o \in AllOps(N) : StructLegal(C, N, F, o) /\
+                /\ \E o \in ops : StructLegal(C, N, F, o) /\
                         Score(I, N, Apply(F, o)) - Score(I, N, F) >= eps + tol}
 
 \* ---- spanning trees -------------------------------------------------------
